@@ -2,6 +2,7 @@ pub mod c01;
 pub mod c02;
 pub mod c10;
 pub mod c12;
+pub mod c13;
 pub mod c21;
 pub mod c23;
 pub mod c35;
@@ -15,6 +16,7 @@ pub fn get(id: &str) -> Option<&'static dyn Property> {
         "C02" => Some(&c02::C02),
         "C10" => Some(&c10::C10),
         "C12" => Some(&c12::C12),
+        "C13" => Some(&c13::C13),
         "C21" => Some(&c21::C21),
         "C23" => Some(&c23::C23),
         "C35" => Some(&c35::C35),
@@ -23,4 +25,4 @@ pub fn get(id: &str) -> Option<&'static dyn Property> {
     }
 }
 
-pub const ALL_IDS: &[&str] = &["C01", "C02", "C10", "C12", "C21", "C23", "C35", "C39"];
+pub const ALL_IDS: &[&str] = &["C01", "C02", "C10", "C12", "C13", "C21", "C23", "C35", "C39"];
